@@ -15,11 +15,30 @@ class ErrV(str):
     """An Excel error value in a model's reference arithmetic."""
 
 
+class Raises:
+    """Evaluating the cell raises a Python exception (e.g. an unknown
+    function): the reference only says THAT it raises."""
+
+
+RAISES = Raises()
+
+
 def obs(v, lib):
-    """Observation string of a reference value."""
+    """Observation string of a reference value ('raise:*' = any exception)."""
     if isinstance(v, ErrV):
         return 'err:' + v
+    if isinstance(v, Raises):
+        return 'raise:*'
     return lib.norm(v)
+
+
+def agrees(got, want):
+    """Does the observation ``got`` satisfy the reference observation?"""
+    if want == 'raise:*':
+        return got.startswith('raise:') and got not in (
+            'raise:RecursionError', 'raise:MemoryError',
+            'raise:CycleError')
+    return got == want
 
 
 class ModelSpec:
@@ -37,6 +56,7 @@ class ModelSpec:
         # True: no reference arithmetic; the value of a cell evaluated alone
         # on a fresh model is the reference (C05 only)
         self.differential = False
+        self.extracted = False
         # cells that schedules may evaluate (default: all of them)
         self.eval_cells = list(eval_cells) if eval_cells else list(cells)
 
@@ -123,10 +143,13 @@ def crosssheet():
     return ModelSpec(
         'crosssheet',
         {a: 2, e: 7, c: '=Sheet1!A1+C1', b: '=Sheet2!A1*2+A1',
-         d: '=A1+Sheet1!B1'},
+         d: '=A1+Sheet1!B1',
+         # the same text on both sheets, unqualified and with a unary minus
+         'Sheet1!D1': '=-A1*3', 'Sheet2!D1': '=-A1*3'},
         [a, e], [0, 5],
         {c: lambda g: g(a) + g(e), b: lambda g: g(c) * 2 + g(a),
-         d: lambda g: g(c) + g(b)})
+         d: lambda g: g(c) + g(b),
+         'Sheet1!D1': lambda g: -g(a) * 3, 'Sheet2!D1': lambda g: -g(c) * 3})
 
 
 def _txt(v):
@@ -213,6 +236,49 @@ def othersheet():
     return spec
 
 
+def guarded():
+    """An input decides whether a precedent raises a Python exception (an
+    unknown function); after the input is repaired everything computes."""
+    A1, B1, C1, D1 = (S + x for x in ('A1', 'B1', 'C1', 'D1'))
+
+    def b1(g):
+        return RAISES if g(A1) > 3 else g(A1) + 1
+
+    def up(f):
+        def h(g):
+            v = g(B1)
+            return v if isinstance(v, Raises) else f(g)
+        return h
+    return ModelSpec(
+        'guarded',
+        {A1: 0, B1: '=IF(A1>3,NOSUCHFUNCTION(1),A1+1)', C1: '=B1*2',
+         D1: '=C1+A1'},
+        [A1], [5, 0],
+        {B1: b1, C1: up(lambda g: g(B1) * 2),
+         D1: up(lambda g: g(B1) * 2 + g(A1))})
+
+
+def named_extracted():
+    """The 'named' model after ModelCompiler.extract with every cell and
+    the name in the focus (name object and cell are separate copies then)."""
+    spec = named()
+    spec.name = 'named-extracted'
+    spec.extracted = True
+    return spec
+
+
+def criteria():
+    """COUNTIF cells whose criteria read alike but differ in type."""
+    cells = {S + 'A1': 1, S + 'A2': True, S + 'A3': 1, S + 'A4': 'True',
+             S + 'B1': '=COUNTIF(A1:A4,TRUE)',
+             S + 'B2': '=COUNTIF(A1:A4,"True")',
+             S + 'B3': '=COUNTIF(A1:A4,1)', S + 'B4': '=COUNTIF(A1:A4,"1")'}
+    spec = ModelSpec('criteria', cells, [S + 'A1'], [0, 5], {},
+                     eval_cells=[S + 'B1', S + 'B2', S + 'B3', S + 'B4'])
+    spec.differential = True
+    return spec
+
+
 def typed():
     """An input that switches between a number and the logical that is ==
     to it in Python (1 / TRUE, 0 / FALSE); the formulas tell them apart."""
@@ -268,8 +334,8 @@ def lookup():
 
 
 ALL = [chain, diamond, sumrange, formularange, crosssheet, textmodel, named,
-       branch, lookup, errrange, typed]
-ALL_C05 = ALL + [twodim, longrange, othersheet]
+       branch, lookup, errrange, typed, guarded, named_extracted]
+ALL_C05 = ALL + [twodim, longrange, othersheet, criteria]
 
 
 def by_name(name):
@@ -297,7 +363,8 @@ def xlsx_path(spec, cells=None):
     import openpyxl
     from openpyxl.workbook.defined_name import DefinedName
     cells = cells if cells is not None else spec.cells
-    key = (spec.name, repr(sorted(cells.items(), key=repr)))
+    key = (spec.name.replace('-extracted', ''),
+           repr(sorted(cells.items(), key=repr)))
     if key in _XLSX_CACHE:
         return _XLSX_CACHE[key]
     wb = openpyxl.Workbook()
@@ -324,6 +391,10 @@ def xlsx_path(spec, cells=None):
 def build(spec, lib, cells=None):
     """A fresh compiled Model of the spec (current working tree)."""
     if spec.names:
-        return lib.ModelCompiler().read_and_parse_archive(
+        model = lib.ModelCompiler().read_and_parse_archive(
             xlsx_path(spec, cells))
+        if spec.extracted:
+            model = lib.ModelCompiler.extract(
+                model, focus=list(spec.all_cells) + list(spec.names))
+        return model
     return lib.compile_dict(cells if cells is not None else spec.cells)
